@@ -48,6 +48,12 @@ pub fn in_lib(on: bool) {
     IN_LIB.store(on, Relaxed);
 }
 
+/// set the flag and return its previous value (harness bookkeeping done from inside a
+/// library call, e.g. in Drop of a tracked object, must not be tagged as library memory)
+pub fn swap_in_lib(on: bool) -> bool {
+    IN_LIB.swap(on, Relaxed)
+}
+
 pub struct TAlloc;
 
 fn hdr_for(align: usize) -> usize {
